@@ -1,9 +1,20 @@
 import Cx.Driver
+import Cx.DriverCompile
 /-! cxdrv — reads requests from stdin (one per line), writes one answer per line. -/
+
+def tokens (line : String) : List String := (line.trimAscii.toString.splitOn " ").filter (· ≠ "")
+
+/-- model-specific handlers first, then the core protocol -/
+def answer (line : String) : String :=
+  let toks := tokens line
+  match Cx.DriverCompile.handle? toks with
+  | some r => r
+  | none => Cx.Driver.handle line
+
 partial def loop (h : IO.FS.Stream) (out : IO.FS.Stream) : IO Unit := do
   let line ← h.getLine
   if line.isEmpty then return ()
-  out.putStrLn (Cx.Driver.handle line)
+  out.putStrLn (answer line)
   loop h out
 
 def main : IO Unit := do
